@@ -211,6 +211,10 @@ func runC07(c c07Case) Verdict {
 	if err := r1.dr.RestoreAt(snap); err != nil {
 		return failf("RestoreAt failed: %v%s", err, ctx())
 	}
+	// the variables live in the storer: after the restore it holds exactly the snapshot's variables
+	if d := sameStore(frozen.vars, r1.finalStore()); d != "" {
+		return failf("after RestoreAt the receiver's storer does not hold exactly the snapshot's variables (snapshot vs storer): %s%s", d, ctx())
+	}
 	// (d) a snapshot taken right after the restore equals the restored one
 	if d := frozen.diff(viewSnapshot(r1.dr.Snapshot())); d != "" {
 		return failf("a snapshot taken immediately after RestoreAt differs from the restored one (restored vs new): %s\nrestored %s%s", d, frozen, ctx())
@@ -221,14 +225,20 @@ func runC07(c c07Case) Verdict {
 	}
 	// (b) resume
 	nc1 := 0
-	driveN(r1, len(want)+2, c.Cont, &nc1)
+	driveN(r1, len(want), c.Cont, &nc1)
 	got := r1.trace
-	if len(got) > len(want) {
-		got = got[:len(want)]
-	}
 	if d := diffTraces(want, got); d != "" {
 		return failf("after RestoreAt into a %s runner the dialogue does not continue like the original did from the entry of node %s: %s\nexpected continuation:\n%sactual:\n%s%s",
 			state, frozen.node, d, showTrace(want), showTrace(r1.trace), ctx())
+	}
+	// the checkpoint reached later by the restored runner equals the one the reference reached
+	if len(r1.trace) == len(want) && len(ref.trace) >= entryIdx {
+		if d := viewSnapshot(ref.dr.Snapshot()).diff(viewSnapshot(r1.dr.Snapshot())); d != "" {
+			return failf("after the same continuation the restored runner's snapshot differs from the reference runner's (reference vs restored): %s%s", d, ctx())
+		}
+		if d := sameStore(ref.finalStore(), r1.finalStore()); d != "" {
+			return failf("after the same continuation the restored runner's variables differ from the reference runner's (reference vs restored): %s%s", d, ctx())
+		}
 	}
 	// (c) independence: r1 has been driven; the snapshot and r2 must be untouched
 	if d := frozen.diff(viewSnapshot(snap)); d != "" {
@@ -298,7 +308,11 @@ func prepareKeepState(c c07Case, newH func() *host, nc *int) *host {
 
 var snapScriptOpts = scriptOpts{maxNodes: 4, maxDepth: 3, maxBody: 4, tracking: true, visitText: true, enterProbe: true, endWithJump: 3, firstLine: true,
 	extraStmt: func(g *scriptGen, depth int) *Stmt {
-		switch rapid.IntRange(0, 3).Draw(g.t, "snapstmt") {
+		switch rapid.IntRange(0, 4).Draw(g.t, "snapstmt") {
+		case 4:
+			// a variable only this path defines: receivers may hold variables the snapshot lacks, and vice versa
+			g.lineID++
+			return &Stmt{K: "set", Var: fmt.Sprintf("x%d", g.lineID), Op: "=", E: num(fmt.Sprint(g.lineID))}
 		case 0, 2:
 			return &Stmt{K: "cmd", Words: []TextPart{{S: "hold"}}}
 		case 1:
